@@ -933,6 +933,21 @@ def seen_flag_reset(ctx, cm):
 RANGE_SKIP = "std::iter::Iterator::skip"
 
 
+def strip_plus_one(e):
+    """`i + 1` (also as the `.0` of a checked add) -> `i`; anything else unchanged"""
+    x = strip_refs(e)
+    if x.kind == "field" and x[2] == 0:
+        y = strip_refs(x[1])
+        if y.kind == "binop" and y[1] in ("AddWithOverflow",):
+            x = y
+    if x.kind == "binop" and x[1] in ("Add", "AddWithOverflow", "AddUnchecked"):
+        if is_const(strip_refs(x[3]), 1):
+            return strip_refs(x[2])
+        if is_const(strip_refs(x[2]), 1):
+            return strip_refs(x[3])
+    return strip_refs(e)
+
+
 def inner_range_start(ctx, chain):
     """(ok, start expression, list sources, why) for an inner iteration `list[start..]` or `list.iter().skip(start)`"""
     idxs = [(p2, cb, e) for p2, cb, e in chain if p2 in ("std::ops::Index::index",)]
@@ -941,7 +956,8 @@ def inner_range_start(ctx, chain):
         p2, cb, e = idxs[-1]
         rng = strip_refs(e[2][1])
         if rng.kind == "agg" and rng[2] == "std::ops::RangeFrom":
-            return True, strip_refs(rng[4][0]), sources_of_expr(ctx, cb, e[2][0]), ""
+            # `list[i..]` or `list[i + 1..]` (the latter leaves out the outer element itself: no identity filter needed)
+            return True, strip_plus_one(rng[4][0]), sources_of_expr(ctx, cb, e[2][0]), ""
         if rng.kind == "agg":
             return False, None, frozenset(), "inner iteration ranges over `%s` (not the positions from the outer element on)" % fmt_expr(rng, cb)
         return False, None, frozenset(), "inner iteration is not list[index..]"
@@ -1066,10 +1082,14 @@ def R3(ctx, rule="R3", parts=("structures", "counts", "graph-field")):
             a_tys = [a.get("pl", {}).get("ty", "") for a in t["args"]]
             if any(x.startswith("&mut daggy::Dag<F,") for x in a_tys):
                 aug = (bb, t)
-            elif any(x.startswith("&daggy::Dag<F,") for x in a_tys):
-                if "Rank" in t["dest"]["ty"]:
+            elif any(x.startswith("&daggy::Dag<F,") or x.startswith("daggy::Dag<F,") for x in a_tys):
+                if "Rank" in t["dest"]["ty"] and t["dest"]["ty"].startswith("std::vec::Vec<"):
                     rank_call = (bb, t)
                 else:
+                    # (by reference, or by value into a private constructor that derives the structure copies from it)
+                    gi = [i for i, x in enumerate(a_tys) if x.startswith("&daggy::Dag<F,") or x.startswith("daggy::Dag<F,")][0]
+                    t = dict(t)
+                    t["args"] = [t["args"][gi]] + [a for i, a in enumerate(t["args"]) if i != gi]
                     later.append((bb, t, short(p)))
         elif p in ("daggy::Dag::<N, E, Ix>::raw_edges", "daggy::Dag::<N, E, Ix>::raw_nodes"):
             later.append((bb, t, p.split("::")[-1]))
@@ -1136,10 +1156,11 @@ def R3(ctx, rule="R3", parts=("structures", "counts", "graph-field")):
                   "a rank calculation runs after / without preceding data-edge augmentation: ranks would count Data edges")
     # the augmented graph is the one stored in FnGraph.graph
     roles = structure_roles(ctx)
-    for bb, si, s in (b.stmts() if "graph-field" in parts else []):
+    cb_ = roles.get("ctor") or b         # the body holding the `FnGraph { .. }` literal: build() or a private constructor it calls
+    for bb, si, s in (cb_.stmts() if "graph-field" in parts else []):
         if s["k"] == "assign" and s["rv"]["k"] == "agg" and s["rv"].get("def") == "fn_graph::FnGraph":
             op = s["rv"]["ops"][roles["graph"]]
-            ctx.check(fl.sources_operand(b, op) == gsrc, rule, "graph-field", m.where(b, bb, si),
+            ctx.check(fl.sources_operand(cb_, op) == gsrc, rule, "graph-field", m.where(cb_, bb, si),
                       "FnGraph.graph is the augmented graph itself", "FnGraph.graph is not the graph that was augmented")
     ctx.floor(rule, 1, "phase-order obligations")
 
@@ -1153,12 +1174,34 @@ def R4(ctx, rule="R4"):
         ctx.unverifiable(rule, "build", "-", "build() / structure roles not found")
         return
     n = 0
+    work = []
+    reach_ids = {y.id for y in build_reach(ctx)}
     for body in build_reach(ctx):
         for bb, t in body.calls():
             p = callee_path(t)
             if p in (ADD_EDGE, "daggy::Dag::<N, E, Ix>::add_node") and "daggy::Dag<()," in t["args"][0].get("pl", {}).get("ty", ""):
+                hsig = ctx.fb.fns.get(body.id) or {}
+                if body.kind == "fn" and body.id != b.id and not hsig.get("public") and loop_region(ctx, body, bb) is None and not body.back_edges():
+                    # a method of a private holder of the two structures (`structures.add_edge(from, to, w)`): it does its
+                    # insertion unconditionally (apart from `?` on an earlier insertion); the iteration is at its call sites
+                    gs_ = [g for g in cond_guards(body, bb) if not any(
+                        c.kind == "call" and c[1] == "std::ops::Try::branch" for c in walk_expr(strip_refs(g[1])))]
+                    csites = [(cb, cbb, ct) for (cb, cbb, ct) in fl.call_sites().get(body.id, []) if cb.id in reach_ids]
+                    if not gs_ and csites:
+                        wk = None
+                        if p == ADD_EDGE:
+                            ws_ = [x for x in fl.sources_operand(body, t["args"][3], (), "prov@" + body.id) if x.kind == "param" and x[1] == body.id and not x[3]]
+                            wk = ws_[0][2] if len(ws_) == 1 else None
+                        for (cb, cbb, ct) in csites:
+                            wop = ct["args"][wk - 1] if wk is not None and wk - 1 < len(ct["args"]) else None
+                            work.append((cb, cbb, t, "%s|%s" % (p.split("::")[-1], short(body.id)), wop))
+                        continue
+                work.append((body, bb, t, "%s|%s" % (p.split("::")[-1], short(body.id)), t["args"][3] if p == ADD_EDGE else None))
+    for (body, bb, t, key, wop) in work:
+        if True:
+            p = callee_path(t)
+            if True:
                 n += 1
-                key = "%s|%s" % (p.split("::")[-1], short(body.id))
                 where = m.where(body, bb)
                 # in a closure consumed by (try_)for_each over raw_edges()/raw_nodes() with no filters
                 x = body
@@ -1178,7 +1221,11 @@ def R4(ctx, rule="R4"):
                         full_range = is_const(strip_refs(r_[4][0]), 0) and strip_refs(r_[4][1]).kind == "call" and strip_refs(r_[4][1])[1] in NODE_COUNT_FNS
                     exits_ok = True
                     for (xb, sb_) in lr_["early_exits"]:
-                        exits_ok = False
+                        # leaving the copy loop is fine only on the error path of the insertion itself (`?`: WouldCycle cannot occur
+                        # for edges copied from a DAG)
+                        fr_ = [bb2 for bb2, t2 in body.calls() if callee_path(t2) == "std::ops::FromResidual::from_residual"]
+                        if not fr_ or not body.all_paths_pass(sb_, fr_, body.exits()):
+                            exits_ok = False
                     if (srcs or full_range) and not sel and exits_ok:
                         ok = True
                     else:
@@ -1251,7 +1298,7 @@ def R4(ctx, rule="R4"):
                           "structure copy: %s executed for every raw %s, unconditionally" % (p.split("::")[-1], "edge" if "edge" in p else "node"),
                           "structure copy is conditional / partial: %s %s" % (why, gs))
                 if p == ADD_EDGE:
-                    w = strip_refs(expr_operand(body, t["args"][3]))
+                    w = strip_refs(expr_operand(body, wop)) if wop is not None else E(("unknown", "weight not passed through"))
                     wsrc = sources_of_expr(ctx, body, w)
                     ctx.check(all(s.kind in ("alloc", "closure_param", "param") for s in wsrc) and
                               any("raw_edges" in str(s) for s in wsrc) or w.kind == "field" or
@@ -1551,6 +1598,8 @@ def P1(ctx, rule="P1"):
                 if ity.startswith("std::ops::RangeFull"):
                     ok = True
                 elif ity.startswith("std::ops::RangeFrom<") and rng.kind == "agg":
+                    st0 = strip_plus_one(strip_refs(rng[4][0]))      # list[i + 1..] with i < len is within bounds as well
+                    rng = E((rng[0], rng[1], rng[2], rng[3], (st0,) + tuple(rng[4][1:])))
                     srcs = sources_of_expr(ctx, b, strip_refs(rng[4][0]))
                     ok = bool(srcs) and all(s2.kind == "alloc" and s2[4] == "std::iter::Iterator::enumerate" and "$item" in s2[3] for s2 in srcs)
                     if not ok:
@@ -2050,6 +2099,13 @@ def D4(ctx, rule="D4"):
                             attrs.add("node_count")
                         if c.kind == "call" and c[1].endswith("::edge_count"):
                             attrs.add("edge_count")
+                        # `raw_nodes().len()` / `raw_edges().len()` are the same numbers
+                        if c.kind == "call" and c[1].split("::")[-1] == "len" and c[2]:
+                            inner_ = [x[1].split("::")[-1] for x in walk_expr(c[2][0]) if x.kind == "call"]
+                            if "raw_nodes" in inner_ or "node_weights" in inner_:
+                                attrs.add("node_count")
+                            if "raw_edges" in inner_:
+                                attrs.add("edge_count")
     # each comparison relates the two graphs: one operand derives from `self`, the other from `other`
     for bid in sorted(m.reach(eqb.id)):
         b = fb.bodies[bid]
@@ -2124,6 +2180,8 @@ def D4(ctx, rule="D4"):
                         # a private generic helper (`pairs_all_eq(a, b, |x, y| ..)`) used for each of the two comparisons: one zipped
                         # comparison per call; each call's result must be a conjunct of the returned value
                         hsites = [(cb_, cbb_, ct_) for (cb_, cbb_, ct_) in fl.call_sites().get(b.id, []) if cb_.id in m.reach(eqb.id) and not fb.is_test_body(cb_)]
+                        if not hsites or any(cb_.id != eqb.id for cb_, _, _ in hsites):
+                            hsites = []        # called from elsewhere (a `diff()` chain): its combination is judged where it is made
                         zips += max(0, len(hsites) - 1)
                         pcs_h = []
                         for xb in eqb.exits():
@@ -2846,6 +2904,7 @@ def C13_rules(ctx, rule="K"):
     b0 = build_body(ctx)
     roles = structure_roles(ctx)
     if b0 is not None and roles and roles.get("ranks") is not None:
+        b0 = roles.get("ctor") or b0
         for bb, si, s in b0.stmts():
             if s["k"] == "assign" and s["rv"]["k"] == "agg" and s["rv"].get("def") == "fn_graph::FnGraph":
                 op = s["rv"]["ops"][roles["ranks"]]
